@@ -14,7 +14,7 @@ from . import seqs as Q
 from . import values as V
 from .engine import PyRaise, SExc
 from .seqs import DRef, LRef, ModelObj, SObj, SRange, SSeq, SSlice
-from .values import SAtom, SBool, SInt, SOpaque, SOpt, SReal, Sym, Unsupported, both, either, imax, imin, is_num, ite, mk_bool, mk_int, neg
+from .values import SAtom, SBool, SInt, SOpaque, SOpt, SReal, Sym, Unsupported, both, either, imax, imin, implies, is_num, ite, mk_bool, mk_int, neg
 
 
 def _raise(cls, msg=""):
@@ -621,7 +621,14 @@ def _sym_extreme(ip, st, args, kw, want_max):
     m = Q.seq_get(v, w)
     if not is_num(m):
         raise Unsupported("min/max over a symbolic sequence of non-numbers")
-    V.lazy_forall(0, n, (lambda k: Q.seq_get(v, k) <= m) if want_max else (lambda k: Q.seq_get(v, k) >= m))
+    bound = (lambda k: Q.seq_get(v, k) <= m) if want_max else (lambda k: Q.seq_get(v, k) >= m)
+    V.lazy_forall(0, n, bound)
+    # a short sequence (length provably <= 8 on this path, e.g. `max(attrs[i + 2 : i + 5])`): the bound is stated
+    # for each of its positions outright (the same fact as the lazy quantifier, instantiated at 0..7)
+    r0, _m = st._check(V._z(n) > 8, st.cfg.branch_timeout_ms)
+    if r0 == z3.unsat:
+        for k in range(8):
+            st.assume(implies(V._cmp("<", k, n), bound(k)))
     st.ghost.setdefault("extreme_witnesses", []).append(w)
     return m
 
@@ -883,6 +890,10 @@ def b_isinstance(ip, st, x, cls):
             return issubclass(x.cls, c)
         if isinstance(x, ModelObj) and getattr(x, "py_class", None) is not None:
             return issubclass(x.py_class, c)  # a model of a builtin type (pyvc.fmap.SFMap models dict)
+        if isinstance(x, ModelObj) and hasattr(x, "py_isinstance"):
+            # a modelled value that stands for an instance of a builtin class (e.g. a modelled str): the model says
+            # whether that class is a subclass of c, as CPython's isinstance does for the value it stands for
+            return x.py_isinstance(c)
         if isinstance(x, Sym):
             raise Unsupported(f"isinstance of {type(x).__name__}")
         from .interp import FnVal
